@@ -61,6 +61,24 @@ func sweepProgram(c *sim.RunCtx, src []byte, wellBehaved bool, gaps []int, nontr
 		}
 	}
 
+	// per-configuration references: the budgeted run is compared with the
+	// unbudgeted run under the SAME delivery and call split, so that a result
+	// that depends on delivery (property C12) is not blamed on the budget
+	refD := make([]string, nsch)
+	refE := make([]string, nsch)
+	refT := make([]int, nsch)
+	for i := range schs {
+		refT[i] = T
+		if runaway {
+			continue
+		}
+		r := runPS(newInterp(0), src, schs[i], cuts[i], sim.Fault{}, nil)
+		refD[i], refE[i], refT[i] = dump.Interp(r.In), dump.Err(r.Err), r.In.NumOps
+		if refT[i] != T || refD[i] != refDump || refE[i] != refErr {
+			st.Inc("delivery_dependent_reference(C12 business)")
+		}
+	}
+
 	// the cut points: all of 1..T+2, or a sample for long runs
 	var ns []int
 	hi := T + 2
@@ -103,8 +121,10 @@ func sweepProgram(c *sim.RunCtx, src []byte, wellBehaved bool, gaps []int, nontr
 		if ex.NoProg {
 			return &sim.Outcome{Class: "no-progress", Key: "budget:no-progress", Detail: "interpreter kept reading after the source had ended", Human: human()}
 		}
+		T := refT[k]
 		if !runaway && N >= T {
 			d, e := dump.Interp(ex.In), dump.Err(ex.Err)
+			refDump, refErr := refD[k], refE[k]
 			if ex.In.NumOps != T || d != refDump || e != refErr {
 				return &sim.Outcome{Class: "budget-changes-result", Key: "budget:changes-result",
 					Detail: fmt.Sprintf("budget N=%d >= ops(P)=%d but the outcome differs from the unbudgeted run (NumOps=%d): %s", N, T, ex.In.NumOps, firstDiff(e+"\n"+d, refErr+"\n"+refDump)),
